@@ -4,7 +4,8 @@
 Never leaves /repo modified."""
 import json, os, re, subprocess, sys, time
 
-ROOT = "/verif"
+ROOT = os.path.dirname(os.path.dirname(os.path.abspath(__file__)))
+REPO = os.environ.get("VERIF_REPO", "/repo")   # tools/sweep_parallel.py runs shards in copies of /verif against scratch worktrees of /repo
 EXTRA = {"C02B": ["C08", "C05"], "C10B": ["C08"], "C09B": ["C03"], "C13A": ["C19"], "C12B": ["C13"], "C08A": ["C16"], "C16B": ["C08"]}
 
 def sh(cmd, **kw):
@@ -20,9 +21,9 @@ def main():
             continue
         meta = json.load(open(os.path.join(d, "meta.json")))
         prop = meta["property"]
-        rc, out = sh("git -C /repo status --porcelain")
-        assert out.strip() == "", "/repo is not clean: " + out
-        rc, out = sh("git -C /repo apply %s/patch.diff" % d)
+        rc, out = sh("git -C %s status --porcelain" % REPO)
+        assert out.strip() == "", REPO + " is not clean: " + out
+        rc, out = sh("git -C %s apply %s/patch.diff" % (REPO, d))
         if rc != 0:
             rows.append((sid, prop, "patch does not apply", ""))
             continue
@@ -37,13 +38,13 @@ def main():
                     kind = "violation with failing input" if "no-failing-input-found" not in v[0] else "violation, no failing input found (broken obligation / correspondence)"
                 res[chk] = {"rc": rc, "result": kind, "seconds": round(time.time() - t0, 1)}
         finally:
-            sh("git -C /repo checkout -- .")
+            sh("git -C %s checkout -- ." % REPO)
         meta["detected_by"] = res
         json.dump(meta, open(os.path.join(d, "meta.json"), "w"), indent=1)
         rows.append((sid, prop, "; ".join("%s: %s" % (k, v["result"]) for k, v in res.items()), ""))
         print(sid, res, flush=True)
     # the checks regenerate lean/VpnCloud/Generated from whatever /repo contained: bring it back to the unchanged tree
-    sh("%s %s/translate/translate.py /repo %s/lean/VpnCloud/Generated" % (sys.executable, ROOT, ROOT))
+    sh("%s %s/translate/translate.py %s %s/lean/VpnCloud/Generated" % (sys.executable, ROOT, REPO, ROOT))
     write_results()
 
 
